@@ -48,10 +48,11 @@ const (
 	midPipe
 	midCompleteFile
 	midMerge
+	midLimitMemory // LimitMemory: a pass-through stage that may wait
 	nMids
 )
 
-var midNames = []string{"SortBatches", "Rebatch", "FilterEmpty", "MakeIWorker(tag)", "MakeIWorker(drop)", "MakeISliceWorker(drop)", "FilterOn", "FilterAnd", "IFragments", "Pipe(WorkerPipe,SliceWorkerPipe)", "CompleteFileIterator", "IMergeSequenceBatch"}
+var midNames = []string{"SortBatches", "Rebatch", "FilterEmpty", "MakeIWorker(tag)", "MakeIWorker(drop)", "MakeISliceWorker(drop)", "FilterOn", "FilterAnd", "IFragments", "Pipe(WorkerPipe,SliceWorkerPipe)", "CompleteFileIterator", "IMergeSequenceBatch", "LimitMemory"}
 
 const (
 	sinkCollect = iota
@@ -61,10 +62,11 @@ const (
 	sinkCount
 	sinkPeekSplit  // Next + PushBack, then several consumers sharing the stream through Split()
 	sinkPairedWith // the stream of the mates, as the paired writers derive it for the second file
+	sinkCopyTee    // CopyTee: two consumers, each must receive everything
 	nSinks
 )
 
-var sinkNames = []string{"collect", "DivideOn", "Distribute", "Load", "Count", "peek+PushBack+Split consumers", "PairedWith"}
+var sinkNames = []string{"collect", "DivideOn", "Distribute", "Load", "Count", "peek+PushBack+Split consumers", "PairedWith", "CopyTee"}
 
 type stream struct {
 	Recs    []Rec
@@ -340,6 +342,8 @@ func (m iterModel) apply(st midStage) iterModel {
 		if 1+st.B%4 > 1 {
 			m.arrivalSorted = false
 		}
+	case midLimitMemory:
+		// identity: same batches, same numbers, same arrival order
 	case midWorkerDrop, midSliceDrop:
 		keep := keepPred(st.A)
 		m.ids = filterIDs(m.ids, keep)
@@ -563,6 +567,8 @@ func runIterPlan(rc *RunCtx, p iterPlan, hasMerge []bool) (SimResult, *iterOutpu
 				it = it.Pipe(obiiter.WorkerPipe(tag, false, nw), obiiter.SliceWorkerPipe(obiseq.SeqToSliceWorker(nil, false), false, nw))
 			case midCompleteFile:
 				it = it.CompleteFileIterator()
+			case midLimitMemory:
+				it = it.LimitMemory(1.0)
 			case midMerge:
 				if hasMerge[i] {
 					it = it.IMergeSequenceBatch("NA", obiseq.StatsOnDescriptions{}, 1+st.A)
@@ -644,6 +650,15 @@ func runIterPlan(rc *RunCtx, p iterPlan, hasMerge []bool) (SimResult, *iterOutpu
 				return obiseq.BioSequenceSlice{s}, nil
 			}, false, 2+p.SinkB)
 			collectFrom(it.PairedWith(), c)
+		case sinkCopyTee:
+			a, b := it.CopyTee()
+			ca, cb := &collected{}, &collected{}
+			out.outs["first"], out.outs["second"] = ca, cb
+			var wg simrt.WaitGroup
+			wg.Add(2)
+			simrt.Go("consume-first", func() { defer wg.Done(); collectFrom(a, ca) })
+			simrt.Go("consume-second", func() { defer wg.Done(); collectFrom(b, cb) })
+			wg.Wait()
 		case sinkLoad:
 			_, sl := it.Load()
 			for _, s := range sl {
@@ -839,6 +854,17 @@ func runC03(rc *RunCtx) {
 		if check("mates", ids, want, m.ordered) && m.ordered {
 			rc.Probe("mates_stream_in_step_with_reads")
 		}
+	case sinkCopyTee:
+		for _, side := range []string{"first", "second"} {
+			ids, _, numbering := out.outs[side].flat()
+			if numbering != "" {
+				rc.Violate("C03/batch-numbering/"+comp, "CopyTee output %s: %s\nplan: %s", side, numbering, desc)
+				return
+			}
+			if !check("CopyTee "+side, ids, m.ids, m.ordered) {
+				return
+			}
+		}
 	case sinkLoad:
 		check("Load", out.loaded, m.ids, m.ordered && m.arrivalSorted)
 	case sinkCount:
@@ -854,7 +880,7 @@ func init() {
 		Random: func(tier string) int { return map[string]int{"quick": 4000, "thorough": 300000}[tier] },
 		Run:    runC03,
 		Level:  "exploration",
-		Rule:   "random compositions source > 0-4 stages > sink over the real combinators: sources inject (any partition incl. empty batches, any arrival permutation), IBatchOver, Pool and Concat of 2-3 streams (empty streams included), ReadSequencesBatchFromFiles with 1-3 concurrent readers, PairTo; stages SortBatches, Rebatch, FilterEmpty, MakeIWorker (tag / drop), MakeISliceWorker, FilterOn, FilterAnd, IFragments, Pipe/Pipeline, CompleteFileIterator, IMergeSequenceBatch, each with 1-4 workers; sinks collect, DivideOn, Distribute (consumer per News key), Load, Count, peek+PushBack+Split consumers, PairedWith (the stream of the mates, by batch number); dense yields in obiiter; oracle = list model of every combinator (exactly-once, order when order-preserving, batch numbers 0..m-1, termination). distinct = distinct (set and order of combinators, schedule signature); non-trivial = at least one step with >=2 runnable tasks",
+		Rule:   "random compositions source > 0-4 stages > sink over the real combinators: sources inject (any partition incl. empty batches, any arrival permutation), IBatchOver, Pool and Concat of 2-3 streams (empty streams included), ReadSequencesBatchFromFiles with 1-3 concurrent readers, PairTo; stages SortBatches, Rebatch, FilterEmpty, MakeIWorker (tag / drop), MakeISliceWorker, FilterOn, FilterAnd, IFragments, Pipe/Pipeline, CompleteFileIterator, IMergeSequenceBatch, LimitMemory, each with 1-4 workers; sinks collect, DivideOn, Distribute (consumer per News key), Load, Count, peek+PushBack+Split consumers, PairedWith (the stream of the mates, by batch number), CopyTee (two consumers); dense yields in obiiter; oracle = list model of every combinator (exactly-once, order when order-preserving, batch numbers 0..m-1, termination). distinct = distinct (set and order of combinators, schedule signature); non-trivial = at least one step with >=2 runnable tasks",
 		Real:   []string{"every obiiter combinator named in the rule", "obiformats.ReadSequencesBatchFromFiles", "obiseq workers, classifiers, Subsequence, Merge, pairing", "iterator termination protocol (Add/Done/WaitAndClose, RegisterAPipe/WaitForLastPipe)"},
 		Stub:   []string{"per-file readers of ReadSequencesBatchFromFiles (harness injectors)", "upstream producers (harness injector tasks)", "sync primitives and scheduler (simrt)"},
 	})
